@@ -13,6 +13,7 @@ import (
 	"runtime"
 	"runtime/debug"
 	"sort"
+	"sync"
 	"time"
 	"unsafe"
 )
@@ -515,10 +516,38 @@ func Yield(label string) {
 	s.block(&op{kind: opYield, label: label})
 }
 
+// harnessMu protects harness-side state (simulated connections, clusters) in
+// pass-through mode, where real goroutines run concurrently. Under a controlled
+// run exactly one thread runs at a time and the lock is not used.
+var harnessMu sync.Mutex
+
+// HLock / HUnlock bracket harness code that touches shared harness state; they
+// are no-ops under a controlled run.
+func HLock() {
+	if s == nil {
+		harnessMu.Lock()
+	}
+}
+func HUnlock() {
+	if s == nil {
+		harnessMu.Unlock()
+	}
+}
+
 // Await blocks until pred() holds. pred must be side-effect free.
+// In pass-through mode it polls pred under the harness lock; the caller must
+// NOT hold the harness lock.
 func Await(label string, pred func() bool) {
 	if s == nil {
-		panic("vrt.Await outside controlled run")
+		for {
+			harnessMu.Lock()
+			ok := pred()
+			harnessMu.Unlock()
+			if ok {
+				return
+			}
+			time.Sleep(50 * time.Microsecond)
+		}
 	}
 	s.block(&op{kind: opCond, label: label, enabled: pred})
 }
